@@ -193,6 +193,10 @@ type ZZVal struct {
 	Power  int64
 	Bonded bool
 	Jailed bool
+	// OffIndex: jailed (or fallen below the minimum self-delegation) earlier in this block. x/staking removes such a
+	// validator from the power index at once (GetBondedValidatorsByPower no longer returns it) while its status stays
+	// bonded and its last-power record stays until the staking end blocker.
+	OffIndex bool
 }
 
 type ZZStaking struct {
@@ -204,13 +208,13 @@ func (s *ZZStaking) validator(v ZZVal) stakingtypes.Validator {
 	if v.Bonded {
 		st = stakingtypes.Bonded
 	}
-	return stakingtypes.Validator{OperatorAddress: v.Oper.String(), Status: st, Jailed: v.Jailed, Tokens: sdk.NewInt(v.Power)}
+	return stakingtypes.Validator{OperatorAddress: v.Oper.String(), Status: st, Jailed: v.Jailed || v.OffIndex, Tokens: sdk.NewInt(v.Power)}
 }
 
 func (s *ZZStaking) GetBondedValidatorsByPower(ctx sdk.Context) []stakingtypes.Validator {
 	var out []stakingtypes.Validator
 	for _, v := range s.Vals {
-		if v.Bonded {
+		if v.Bonded && !v.OffIndex {
 			out = append(out, s.validator(v))
 		}
 	}
@@ -247,7 +251,7 @@ func (s *ZZStaking) IterateValidators(ctx sdk.Context, cb func(index int64, vali
 func (s *ZZStaking) IterateBondedValidatorsByPower(ctx sdk.Context, cb func(index int64, validator stakingtypes.ValidatorI) (stop bool)) {
 	i := int64(0)
 	for _, v := range s.Vals {
-		if !v.Bonded {
+		if !v.Bonded || v.OffIndex {
 			continue
 		}
 		if cb(i, s.validator(v)) {
@@ -257,8 +261,18 @@ func (s *ZZStaking) IterateBondedValidatorsByPower(ctx sdk.Context, cb func(inde
 	}
 }
 
+// IterateLastValidators walks the last-power records (the validator set of the previous end blocker).
 func (s *ZZStaking) IterateLastValidators(ctx sdk.Context, cb func(index int64, validator stakingtypes.ValidatorI) (stop bool)) {
-	s.IterateBondedValidatorsByPower(ctx, cb)
+	i := int64(0)
+	for _, v := range s.Vals {
+		if !v.Bonded {
+			continue
+		}
+		if cb(i, s.validator(v)) {
+			break
+		}
+		i++
+	}
 }
 
 func (s *ZZStaking) ValidatorQueueIterator(ctx sdk.Context, endTime time.Time, endHeight int64) sdk.Iterator {
